@@ -299,8 +299,17 @@ func Call(t *rapid.T, op string) api.Case {
 	case "SetDoorPasscodes":
 		c.Door = uint8(rapid.IntRange(1, 4).Draw(t, "door"))
 		n := rapid.IntRange(0, 7).Draw(t, "passcodes.n")
+		if rapid.IntRange(0, 19).Draw(t, "passcodes.many") == 0 {
+			// very long lists: the codes beyond the fourth are ignored however many there are (indices that wrap at 256 / 65536)
+			n = rapid.SampledFrom([]int{255, 256, 257, 258, 260, 261, 512, 516, 65537, 65540}).Draw(t, "passcodes.len")
+		}
 		for i := 0; i < n; i++ {
 			var p uint32
+			if i >= 8 {
+				p = uint32(100000 + i%800000)
+				v.RawPasscodes = append(v.RawPasscodes, p)
+				continue
+			}
 			switch rapid.IntRange(0, 4).Draw(t, "passcode.kind") {
 			case 0:
 				p = rapid.SampledFrom([]uint32{0, 1, 999999, 1000000, 0xffffffff, 65536, 16777216}).Draw(t, "passcode")
